@@ -229,6 +229,10 @@ func (db *DB) writeLocked(batch, ourBatch *Batch, merge, sync bool) error {
 
 	// Write journal.
 	if err := db.writeJournal(batches, seq, sync); err != nil {
+		// The record may have reached the journal file (e.g. only the sync
+		// failed), so its sequence numbers must never be handed out again:
+		// a later record reusing them would be skipped during recovery.
+		db.addSeq(uint64(batchesLen(batches)))
 		db.unlockWrite(overflow, merged, err)
 		return err
 	}
